@@ -419,3 +419,19 @@ package gogu
 //@ func gogu.swap
 //@   property C12
 //@   inline
+
+//@ func gogu.Merge
+//@   property C12 C16
+//@   ghost ps map[int]int = store(ps, 0, 0)
+//@   ensures len(result) == len(s) + ps[len(params)]
+//@   ensures ps[0] == 0 && forall p int :: 0 <= p && p < len(params) ==> ps[p+1] == ps[p] + len(params[p])
+//@   ensures forall k int :: 0 <= k && k < len(s) ==> result[k] == s[k]
+//@   ensures forall p int, j int :: 0 <= p && p < len(params) && 0 <= j && j < len(params[p]) ==> result[len(s) + ps[p] + j] == params[p][j]
+//@   ensures fresh(result) || (sarr(result) == sarr(s) && soff(result) == soff(s) && ps[len(params)] == 0)
+//@ loop 1
+//@   invariant 0 <= i && i <= len(params) && fresh(merged)
+//@   invariant ps[0] == 0 && forall p int :: 0 <= p && p < i ==> ps[p+1] == ps[p] + len(params[p])
+//@   invariant len(merged) == ps[i]
+//@   invariant forall p int, q int :: 0 <= p && p <= q && q <= i ==> ps[p] <= ps[q]
+//@   invariant forall p int, j int :: 0 <= p && p < i && 0 <= j && j < len(params[p]) ==> merged[ps[p] + j] == params[p][j]
+//@   ghost ps[pre(i)+1] = ps[pre(i)] + len(params[pre(i)])
